@@ -1,6 +1,6 @@
 ------------------------------- MODULE MC_Tsig -------------------------------
 EXTENDS Tsig
-MC_Dts == {0 - 301, 0 - 300, 0 - 299, 0, 299, 300, 301}
+MC_Dts == {0 - 65536, 0 - 301, 0 - 300, 0 - 299, 0, 299, 300, 301, 65636}
 MC_Tampers == {"none", "msgId", "appended", "flags", "count", "zone", "prereq", "update", "tsigTime",
                "tsigFudge", "tsigOrigId", "tsigError", "tsigOther", "macBit"}
 =============================================================================
